@@ -13,12 +13,13 @@ Conventions
 - widths containing 16: the macro's documentation has no `@requires ...init` line (it needs no table), so the
   harness may start it with `stl.startup` only, which is the only way a program fits in a 16-bit memory.
 """
+
 from __future__ import annotations
 
 import random
 import re
 from dataclasses import replace
-from typing import Callable, Dict, List, Optional, Sequence, Tuple
+from typing import Callable, Dict, List, Sequence, Tuple
 
 from bounded.stl import MacroContract, Var
 
@@ -30,7 +31,7 @@ def H(n: int, role: str = 'inout') -> Var:
 
 
 def M(n: int) -> int:
-    return 16 ** n
+    return 16**n
 
 
 def sgn(v: int, n: int) -> int:
@@ -170,7 +171,9 @@ class _Table:
         self.cs: List[MacroContract] = []
         self.rng = random.Random(seed * 7919 + 17)
 
-    def add(self, name: str, call: str, vars_: Dict[str, Var], post: Callable[[Vals], Vals], doc: str, n: int, tablefree: bool = False, **kw) -> MacroContract:
+    def add(
+        self, name: str, call: str, vars_: Dict[str, Var], post: Callable[[Vals], Vals], doc: str, n: int, tablefree: bool = False, **kw
+    ) -> MacroContract:
         widths = kw.pop('widths', None) or widths_for(self.tier, n, tablefree, len(self.cs))
         c = MacroContract(name, call, vars_, post, doc=doc, widths=widths, **kw)
         self.cs.append(c)
@@ -243,8 +246,11 @@ def exact_division_domain(n: int, nb: int, count: int) -> Callable[[random.Rando
                     pairs.add((a, b))
         ps = sorted(pairs)
         rng.shuffle(ps)
-        ps = ps[:max(count, 0)] if len(ps) > count else ps
-        return [{'z': a % M(n), 'u': (b % M(nb)) | (rng.randrange(M(n - nb)) << (4 * nb)), 'x': rng.randrange(M(n)), 'y': rng.randrange(M(n))} for a, b in ps]
+        ps = ps[: max(count, 0)] if len(ps) > count else ps
+        return [
+            {'z': a % M(n), 'u': (b % M(nb)) | (rng.randrange(M(n - nb)) << (4 * nb)), 'x': rng.randrange(M(n)), 'y': rng.randrange(M(n))}
+            for a, b in ps
+        ]
 
     dom.all_tuples = M(n) * M(nb) <= 256  # type: ignore[attr-defined]
     return dom
@@ -356,7 +362,14 @@ def contracts(tier: str, seed: int = 0) -> List[MacroContract]:
             'hex.quadrupled_exact_xor',
             f'hex.quadrupled_exact_xor {b4(X)}, {b4("y")}, {b4("z")}, {b4("u")}, s',
             {'x': H(n), 'y': H(n), 'z': H(n), 'u': H(n), 's': H(1, 'in')},
-            (lambda v, hi=hi: {'x': seth(v['x'], hi, geth(v['x'], hi) ^ v['s']), 'y': v['y'] ^ v['s'], 'z': v['z'] ^ v['s'], 'u': v['u'] ^ v['s']}),
+            (
+                lambda v, hi=hi: {
+                    'x': seth(v['x'], hi, geth(v['x'], hi) ^ v['s']),
+                    'y': v['y'] ^ v['s'],
+                    'z': v['z'] ^ v['s'],
+                    'u': v['u'] ^ v['s'],
+                }
+            ),
             '{q3..q0} ^= src ; {r3..r0} ^= src ; {t3..t0} ^= src ; {d3..d0} ^= src',
             n=n,
             tablefree=True,
@@ -446,12 +459,51 @@ def contracts(tier: str, seed: int = 0) -> List[MacroContract]:
                 exits=('l0', 'l1'),
                 exit_=(lambda v, gx=gx, flags=flags: 'l1' if (flags >> gx(v)) & 1 else 'l0'),
             )
-        T.add('hex.if', f'hex.if {X}, l0, l1', x_in, lambda v: {}, 'if hex==0 goto l0, else goto l1', n=n, tablefree=True, exits=('l0', 'l1'), exit_=(lambda v, gx=gx: 'l0' if gx(v) == 0 else 'l1'))
-        T.add('hex.if0', f'hex.if0 {X}, l0', x_in, lambda v: {}, 'if hex==0 goto l0, else continue', n=n, tablefree=True, exits=('l0',), exit_=(lambda v, gx=gx: 'l0' if gx(v) == 0 else None))
-        T.add('hex.if1', f'hex.if1 {X}, l1', x_in, lambda v: {}, 'if hex!=0 goto l1, else continue', n=n, tablefree=True, exits=('l1',), exit_=(lambda v, gx=gx: 'l1' if gx(v) != 0 else None))
+        T.add(
+            'hex.if',
+            f'hex.if {X}, l0, l1',
+            x_in,
+            lambda v: {},
+            'if hex==0 goto l0, else goto l1',
+            n=n,
+            tablefree=True,
+            exits=('l0', 'l1'),
+            exit_=(lambda v, gx=gx: 'l0' if gx(v) == 0 else 'l1'),
+        )
+        T.add(
+            'hex.if0',
+            f'hex.if0 {X}, l0',
+            x_in,
+            lambda v: {},
+            'if hex==0 goto l0, else continue',
+            n=n,
+            tablefree=True,
+            exits=('l0',),
+            exit_=(lambda v, gx=gx: 'l0' if gx(v) == 0 else None),
+        )
+        T.add(
+            'hex.if1',
+            f'hex.if1 {X}, l1',
+            x_in,
+            lambda v: {},
+            'if hex!=0 goto l1, else continue',
+            n=n,
+            tablefree=True,
+            exits=('l1',),
+            exit_=(lambda v, gx=gx: 'l1' if gx(v) != 0 else None),
+        )
         xy_in = {'x': H(n, 'in'), 'y': H(n, 'in')}
         cmp3 = lambda v, gx=gx: 'l0' if gx(v) < (v['y'] & 15) else ('l1' if gx(v) == (v['y'] & 15) else 'l2')  # noqa: E731
-        T.add('hex.cmp', f'hex.cmp {X}, y, l0, l1, l2', xy_in, lambda v: {}, 'if a < b: goto lt; if a == b: goto eq; if a > b: goto gt', n=n, exits=('l0', 'l1', 'l2'), exit_=cmp3)
+        T.add(
+            'hex.cmp',
+            f'hex.cmp {X}, y, l0, l1, l2',
+            xy_in,
+            lambda v: {},
+            'if a < b: goto lt; if a == b: goto eq; if a > b: goto gt',
+            n=n,
+            exits=('l0', 'l1', 'l2'),
+            exit_=cmp3,
+        )
         T.add(
             'hex.cmp.cmp_eq_next',
             f'hex.cmp.cmp_eq_next {X}, y, l0, l2',
@@ -497,11 +549,27 @@ def contracts(tier: str, seed: int = 0) -> List[MacroContract]:
         # ---- memory
         T.add('hex.zero n', f'hex.zero {n}, x', x_, lambda v: {'x': 0}, 'x[:n] = 0', **tf)
         T.add('hex.mov n', f'hex.mov {n}, x, y', xy, lambda v: {'x': v['y']}, 'dst[:n] = src[:n]', **tf)
-        T.add('hex.mov n(same)', f'hex.mov {n}, x, x', x_, lambda v: {}, 'dst[:n] = src[:n]  [safe if they are the exact same address]', **tf)
-        T.add('hex.swap n', f'hex.swap {n}, x, y', {'x': H(n), 'y': H(n)}, lambda v: {'x': v['y'], 'y': v['x']}, 'hex1[:n], hex2[:n] = hex2[:n], hex1[:n]', **tf)
+        T.add(
+            'hex.mov n(same)', f'hex.mov {n}, x, x', x_, lambda v: {}, 'dst[:n] = src[:n]  [safe if they are the exact same address]', **tf
+        )
+        T.add(
+            'hex.swap n',
+            f'hex.swap {n}, x, y',
+            {'x': H(n), 'y': H(n)},
+            lambda v: {'x': v['y'], 'y': v['x']},
+            'hex1[:n], hex2[:n] = hex2[:n], hex1[:n]',
+            **tf,
+        )
         T.add('hex.swap n(same)', f'hex.swap {n}, x, x', x_, lambda v: {}, 'hex1[:n], hex2[:n] = hex2[:n], hex1[:n]  [same address]', **tf)
         for val in T.consts(n, (0xA5A5A5A5,)):
-            T.add(f'hex.xor_by n[{val:#x}]', f'hex.xor_by {n}, x, {val}', x_, (lambda v, val=val: {'x': v['x'] ^ val}), 'hex[:n] ^= val (constant)', **tf)
+            T.add(
+                f'hex.xor_by n[{val:#x}]',
+                f'hex.xor_by {n}, x, {val}',
+                x_,
+                (lambda v, val=val: {'x': v['x'] ^ val}),
+                'hex[:n] ^= val (constant)',
+                **tf,
+            )
             T.add(f'hex.set n[{val:#x}]', f'hex.set {n}, x, {val}', x_, (lambda v, val=val: {'x': val}), 'hex[:n] = val (constant)', **tf)
             T.add(
                 f'hex.vec n, value[{val:#x}]',
@@ -514,7 +582,14 @@ def contracts(tier: str, seed: int = 0) -> List[MacroContract]:
 
         # ---- logic
         T.add('hex.xor n', f'hex.xor {n}, x, y', xy, lambda v: {'x': v['x'] ^ v['y']}, 'dst[:n] ^= src[:n]', **tf)
-        T.add('hex.xor_zero n', f'hex.xor_zero {n}, x, y', {'x': H(n), 'y': H(n)}, lambda v: {'x': v['x'] ^ v['y'], 'y': 0}, 'dst[:n] ^= src[:n] ; src[:n] = 0', **tf)
+        T.add(
+            'hex.xor_zero n',
+            f'hex.xor_zero {n}, x, y',
+            {'x': H(n), 'y': H(n)},
+            lambda v: {'x': v['x'] ^ v['y'], 'y': 0},
+            'dst[:n] ^= src[:n] ; src[:n] = 0',
+            **tf,
+        )
         T.add('hex.not n', f'hex.not {n}, x', x_, (lambda v, s=s: {'x': s - 1 - v['x']}), 'x[:n] = !x[:n]', **tf)
         T.add('hex.or n', f'hex.or {n}, x, y', xy, lambda v: {'x': v['x'] | v['y']}, 'dst[:n] |= src[:n]', n=n)
         T.add('hex.and n', f'hex.and {n}, x, y', xy, lambda v: {'x': v['x'] & v['y']}, 'dst[:n] &= src[:n]', n=n)
@@ -544,9 +619,23 @@ def contracts(tier: str, seed: int = 0) -> List[MacroContract]:
                 n=n,
             )
         for const in T.consts(n, (0x10, 0xF0, 0x100, 0x7FFFFFFF, 0x80)):
-            T.add(f'hex.add_constant[{const:#x}]', f'hex.add_constant {n}, x, {const}', x_, (lambda v, const=const: {'x': v['x'] + const}), 'dst[:n] += const', n=n)
+            T.add(
+                f'hex.add_constant[{const:#x}]',
+                f'hex.add_constant {n}, x, {const}',
+                x_,
+                (lambda v, const=const: {'x': v['x'] + const}),
+                'dst[:n] += const',
+                n=n,
+            )
             if const:  # `hex.sub_constant n, dst, 0` does not assemble (negative shift count): reported, not a value contract
-                T.add(f'hex.sub_constant[{const:#x}]', f'hex.sub_constant {n}, x, {const}', x_, (lambda v, const=const: {'x': v['x'] - const}), 'dst[:dst_n] -= const', n=n)
+                T.add(
+                    f'hex.sub_constant[{const:#x}]',
+                    f'hex.sub_constant {n}, x, {const}',
+                    x_,
+                    (lambda v, const=const: {'x': v['x'] - const}),
+                    'dst[:dst_n] -= const',
+                    n=n,
+                )
         if n >= 2:
             const, sh = T.rng.randrange(1, M(n - 1)), 1
             T.add(
@@ -565,7 +654,14 @@ def contracts(tier: str, seed: int = 0) -> List[MacroContract]:
                 'dst[:dst_n] -= const << (4*hex_shift)',
                 n=n,
             )
-        T.add('hex.add_count_bits', f'hex.add_count_bits {n}, x, y', xy, lambda v: {'x': v['x'] + popcount(v['y'] & 15)}, 'dst[:n] += src.#on-bits (between 0->4)   [dst is hex.vec n, src is hex]', **tf)
+        T.add(
+            'hex.add_count_bits',
+            f'hex.add_count_bits {n}, x, y',
+            xy,
+            lambda v: {'x': v['x'] + popcount(v['y'] & 15)},
+            'dst[:n] += src.#on-bits (between 0->4)   [dst is hex.vec n, src is hex]',
+            **tf,
+        )
         sm = small_n(n)
         T.add(
             'hex.count_bits',
@@ -578,7 +674,14 @@ def contracts(tier: str, seed: int = 0) -> List[MacroContract]:
         T.add('hex.inc n', f'hex.inc {n}, x', x_, lambda v: {'x': v['x'] + 1}, 'hex[:n]++', **tf)
         T.add('hex.dec n', f'hex.dec {n}, x', x_, lambda v: {'x': v['x'] - 1}, 'hex[:n]--', **tf)
         T.add('hex.neg n', f'hex.neg {n}, x', x_, lambda v: {'x': -v['x']}, 'x[:n] = -x[:n]', **tf)
-        T.add('hex.abs n', f'hex.abs {n}, x', x_, (lambda v, n=n: {'x': abs(sgn(v['x'], n))}), "x[:n] = |x[:n]|    (two's complement; the minimal value -2^(4n-1) stays itself)", **tf)
+        T.add(
+            'hex.abs n',
+            f'hex.abs {n}, x',
+            x_,
+            (lambda v, n=n: {'x': abs(sgn(v['x'], n))}),
+            "x[:n] = |x[:n]|    (two's complement; the minimal value -2^(4n-1) stays itself)",
+            **tf,
+        )
         for sg in sorted({1, n, max(1, n - 1), max(1, n // 2)}):
             T.add(
                 f'hex.sign_extend[{sg}]',
@@ -595,14 +698,55 @@ def contracts(tier: str, seed: int = 0) -> List[MacroContract]:
         T.add('hex.shl_hex', f'hex.shl_hex {n}, x', x_, lambda v: {'x': v['x'] << 4}, 'dst[:n] <<= 4', **tf)
         T.add('hex.shr_hex', f'hex.shr_hex {n}, x', x_, lambda v: {'x': v['x'] >> 4}, 'dst[:n] >>= 4', **tf)
         for times in sorted({0, 1, n, n - 1, n // 2}):
-            T.add(f'hex.shl_hex[{times}]', f'hex.shl_hex {n}, {times}, x', x_, (lambda v, times=times: {'x': v['x'] << (4 * times)}), 'dst[:n] <<= 4*times   @Assumes: times <= n', **tf)
-            T.add(f'hex.shr_hex[{times}]', f'hex.shr_hex {n}, {times}, x', x_, (lambda v, times=times: {'x': v['x'] >> (4 * times)}), 'dst[:n] >>= 4*times   @Assumes: times <= n', **tf)
+            T.add(
+                f'hex.shl_hex[{times}]',
+                f'hex.shl_hex {n}, {times}, x',
+                x_,
+                (lambda v, times=times: {'x': v['x'] << (4 * times)}),
+                'dst[:n] <<= 4*times   @Assumes: times <= n',
+                **tf,
+            )
+            T.add(
+                f'hex.shr_hex[{times}]',
+                f'hex.shr_hex {n}, {times}, x',
+                x_,
+                (lambda v, times=times: {'x': v['x'] >> (4 * times)}),
+                'dst[:n] >>= 4*times   @Assumes: times <= n',
+                **tf,
+            )
 
         # ---- conditional jumps
         x_in = {'x': H(n, 'in')}
-        T.add('hex.if n', f'hex.if {n}, x, l0, l1', x_in, lambda v: {}, 'if hex[:n]==0 goto l0, else goto l1', exits=('l0', 'l1'), exit_=lambda v: 'l0' if v['x'] == 0 else 'l1', **tf)
-        T.add('hex.if0 n', f'hex.if0 {n}, x, l0', x_in, lambda v: {}, 'if hex[:n]==0 goto l0, else continue', exits=('l0',), exit_=lambda v: 'l0' if v['x'] == 0 else None, **tf)
-        T.add('hex.if1 n', f'hex.if1 {n}, x, l1', x_in, lambda v: {}, 'if hex[:n]!=0 goto l1, else continue', exits=('l1',), exit_=lambda v: 'l1' if v['x'] != 0 else None, **tf)
+        T.add(
+            'hex.if n',
+            f'hex.if {n}, x, l0, l1',
+            x_in,
+            lambda v: {},
+            'if hex[:n]==0 goto l0, else goto l1',
+            exits=('l0', 'l1'),
+            exit_=lambda v: 'l0' if v['x'] == 0 else 'l1',
+            **tf,
+        )
+        T.add(
+            'hex.if0 n',
+            f'hex.if0 {n}, x, l0',
+            x_in,
+            lambda v: {},
+            'if hex[:n]==0 goto l0, else continue',
+            exits=('l0',),
+            exit_=lambda v: 'l0' if v['x'] == 0 else None,
+            **tf,
+        )
+        T.add(
+            'hex.if1 n',
+            f'hex.if1 {n}, x, l1',
+            x_in,
+            lambda v: {},
+            'if hex[:n]!=0 goto l1, else continue',
+            exits=('l1',),
+            exit_=lambda v: 'l1' if v['x'] != 0 else None,
+            **tf,
+        )
         T.add(
             'hex.sign',
             f'hex.sign {n}, x, l0, l1',
@@ -638,14 +782,51 @@ def contracts(tier: str, seed: int = 0) -> List[MacroContract]:
             frame_exempt=(f'hex.scmp/ba/hex/{n}', f'hex.scmp/bb/hex/{n}'),
         )
         xyz_min = {'x': H(n, 'out'), 'y': H(n, 'in'), 'z': H(n, 'in')}
-        T.add('hex.min', f'hex.min {n}, x, y, z', xyz_min, lambda v: {'x': min(v['y'], v['z'])}, 'dst[:n] = min(a[:n], b[:n])   (unsigned)   @Assumes dst is distinct from a and b', n=n)
-        T.add('hex.max', f'hex.max {n}, x, y, z', xyz_min, lambda v: {'x': max(v['y'], v['z'])}, 'dst[:n] = max(a[:n], b[:n])   (unsigned)   @Assumes dst is distinct from a and b', n=n)
+        T.add(
+            'hex.min',
+            f'hex.min {n}, x, y, z',
+            xyz_min,
+            lambda v: {'x': min(v['y'], v['z'])},
+            'dst[:n] = min(a[:n], b[:n])   (unsigned)   @Assumes dst is distinct from a and b',
+            n=n,
+        )
+        T.add(
+            'hex.max',
+            f'hex.max {n}, x, y, z',
+            xyz_min,
+            lambda v: {'x': max(v['y'], v['z'])},
+            'dst[:n] = max(a[:n], b[:n])   (unsigned)   @Assumes dst is distinct from a and b',
+            n=n,
+        )
         if n >= 2:
-            T.add('hex.min(near)', f'hex.min {n}, x, y, z', xyz_min, lambda v: {'x': min(v['y'], v['z'])}, 'dst[:n] = min(a[:n], b[:n])   (unsigned)', n=n, domain=near_pairs(n, 'y', 'z', cnt // 2, {'x': s}))
-            T.add('hex.max(near)', f'hex.max {n}, x, y, z', xyz_min, lambda v: {'x': max(v['y'], v['z'])}, 'dst[:n] = max(a[:n], b[:n])   (unsigned)', n=n, domain=near_pairs(n, 'y', 'z', cnt // 2, {'x': s}))
+            T.add(
+                'hex.min(near)',
+                f'hex.min {n}, x, y, z',
+                xyz_min,
+                lambda v: {'x': min(v['y'], v['z'])},
+                'dst[:n] = min(a[:n], b[:n])   (unsigned)',
+                n=n,
+                domain=near_pairs(n, 'y', 'z', cnt // 2, {'x': s}),
+            )
+            T.add(
+                'hex.max(near)',
+                f'hex.max {n}, x, y, z',
+                xyz_min,
+                lambda v: {'x': max(v['y'], v['z'])},
+                'dst[:n] = max(a[:n], b[:n])   (unsigned)',
+                n=n,
+                domain=near_pairs(n, 'y', 'z', cnt // 2, {'x': s}),
+            )
 
         # ---- multiplication
-        T.add('hex.add_mul n', f'hex.add_mul {n}, x, y, z', {'x': H(n), 'y': H(n, 'in'), 'z': H(n, 'in')}, lambda v: {'x': v['x'] + v['y'] * (v['z'] & 15)}, 'res[n] += a[n] * b[1]', n=n)
+        T.add(
+            'hex.add_mul n',
+            f'hex.add_mul {n}, x, y, z',
+            {'x': H(n), 'y': H(n, 'in'), 'z': H(n, 'in')},
+            lambda v: {'x': v['x'] + v['y'] * (v['z'] & 15)},
+            'res[n] += a[n] * b[1]',
+            n=n,
+        )
         T.add('hex.mul10', f'hex.mul10 {n}, x', x_, lambda v: {'x': v['x'] * 10}, 'x[n] *= 10', n=n)
         T.add(
             'hex.mul',
@@ -679,6 +860,7 @@ def contracts(tier: str, seed: int = 0) -> List[MacroContract]:
                 max_ops=DIV_OPS * n,
             )
             for opt in (0, 1, 2):
+
                 def idiv_post(v: Vals, nb: int = nb, n: int = n, opt: int = opt) -> Vals:
                     b = low(v['u'], nb)
                     if b == 0:
@@ -762,11 +944,39 @@ def contracts(tier: str, seed: int = 0) -> List[MacroContract]:
         xy_in = {'x': H(2, 'in'), 'y': H(2, 'in')}
         w1 = dict(n=2, widths=(64,))
         T.add('hex.add n(all pairs)', 'hex.add 2, x, y', xy, lambda v: {'x': v['x'] + v['y']}, 'dst[:n] += src[:n]', domain=ex2, **w1)
-        T.add('hex.sub n(all pairs)', 'hex.sub 2, x, y', xy, lambda v: {'x': v['x'] - v['y']}, 'dst[:n] -= src[:n]', domain=ex2, widths=(32,), n=2)
+        T.add(
+            'hex.sub n(all pairs)',
+            'hex.sub 2, x, y',
+            xy,
+            lambda v: {'x': v['x'] - v['y']},
+            'dst[:n] -= src[:n]',
+            domain=ex2,
+            widths=(32,),
+            n=2,
+        )
         T.add('hex.or n(all pairs)', 'hex.or 2, x, y', xy, lambda v: {'x': v['x'] | v['y']}, 'dst[:n] |= src[:n]', domain=ex2, **w1)
-        T.add('hex.and n(all pairs)', 'hex.and 2, x, y', xy, lambda v: {'x': v['x'] & v['y']}, 'dst[:n] &= src[:n]', domain=ex2, widths=(32,), n=2)
+        T.add(
+            'hex.and n(all pairs)',
+            'hex.and 2, x, y',
+            xy,
+            lambda v: {'x': v['x'] & v['y']},
+            'dst[:n] &= src[:n]',
+            domain=ex2,
+            widths=(32,),
+            n=2,
+        )
         T.add('hex.xor n(all pairs)', 'hex.xor 2, x, y', xy, lambda v: {'x': v['x'] ^ v['y']}, 'dst[:n] ^= src[:n]', domain=ex2, **w1)
-        T.add('hex.cmp n(all pairs)', 'hex.cmp 2, x, y, l0, l1, l2', xy_in, lambda v: {}, 'a[:n] < / == / > b[:n]: goto lt / eq / gt', domain=ex2, exits=('l0', 'l1', 'l2'), exit_=lambda v: 'l0' if v['x'] < v['y'] else ('l1' if v['x'] == v['y'] else 'l2'), **w1)
+        T.add(
+            'hex.cmp n(all pairs)',
+            'hex.cmp 2, x, y, l0, l1, l2',
+            xy_in,
+            lambda v: {},
+            'a[:n] < / == / > b[:n]: goto lt / eq / gt',
+            domain=ex2,
+            exits=('l0', 'l1', 'l2'),
+            exit_=lambda v: 'l0' if v['x'] < v['y'] else ('l1' if v['x'] == v['y'] else 'l2'),
+            **w1,
+        )
         T.add(
             'hex.scmp(all pairs)',
             'hex.scmp 2, x, y, l0, l1, l2',
@@ -782,9 +992,35 @@ def contracts(tier: str, seed: int = 0) -> List[MacroContract]:
         )
         ex2yz = exhaustive(('y', 'z'), (256, 256), {'x': 256})
         xyz = {'x': H(2, 'out'), 'y': H(2, 'in'), 'z': H(2, 'in')}
-        T.add('hex.min(all pairs)', 'hex.min 2, x, y, z', xyz, lambda v: {'x': min(v['y'], v['z'])}, 'dst[:n] = min(a[:n], b[:n])', domain=ex2yz, **w1)
-        T.add('hex.max(all pairs)', 'hex.max 2, x, y, z', xyz, lambda v: {'x': max(v['y'], v['z'])}, 'dst[:n] = max(a[:n], b[:n])', domain=ex2yz, widths=(32,), n=2)
-        T.add('hex.mul(all pairs)', 'hex.mul 2, x, y, z', xyz, lambda v: {'x': v['y'] * v['z']}, 'res[:n] = a[:n] * b[:n]', domain=ex2yz, frame_exempt=mul_exempt(2), **w1)
+        T.add(
+            'hex.min(all pairs)',
+            'hex.min 2, x, y, z',
+            xyz,
+            lambda v: {'x': min(v['y'], v['z'])},
+            'dst[:n] = min(a[:n], b[:n])',
+            domain=ex2yz,
+            **w1,
+        )
+        T.add(
+            'hex.max(all pairs)',
+            'hex.max 2, x, y, z',
+            xyz,
+            lambda v: {'x': max(v['y'], v['z'])},
+            'dst[:n] = max(a[:n], b[:n])',
+            domain=ex2yz,
+            widths=(32,),
+            n=2,
+        )
+        T.add(
+            'hex.mul(all pairs)',
+            'hex.mul 2, x, y, z',
+            xyz,
+            lambda v: {'x': v['y'] * v['z']},
+            'res[:n] = a[:n] * b[:n]',
+            domain=ex2yz,
+            frame_exempt=mul_exempt(2),
+            **w1,
+        )
         dd = exhaustive(('z', 'u'), (256, 256), {'x': 256, 'y': 256})
         qrab = {'x': H(2, 'out'), 'y': H(2, 'out'), 'z': H(2, 'in'), 'u': H(2, 'in')}
         T.add(
@@ -819,7 +1055,13 @@ def mul_table_domain(zs: Sequence[int]) -> Callable[[random.Random], List[Vals]]
             for c, (x0, y0) in sorted(reps.items()):
                 for x1 in range(16):
                     for y1 in range(16):
-                        ts.append({'x': x0 | x1 << 4 | rng.randrange(16) << 8, 'y': y0 | y1 << 4 | rng.randrange(16) << 8, 'z': z | rng.randrange(256) << 4})
+                        ts.append(
+                            {
+                                'x': x0 | x1 << 4 | rng.randrange(16) << 8,
+                                'y': y0 | y1 << 4 | rng.randrange(16) << 8,
+                                'z': z | rng.randrange(256) << 4,
+                            }
+                        )
         rng.shuffle(ts)
         return ts
 
@@ -842,7 +1084,17 @@ def table_contracts(tier: str, seed: int = 0) -> Tuple[List[MacroContract], List
     xy = {'x': H(1), 'y': H(1, 'in')}
     ex = exhaustive(('x', 'y'), (16, 16), {})
     for op, f in (('or', lambda a, b: a | b), ('and', lambda a, b: a & b)):
-        cs.append(MacroContract(f'table:hex.{op}', f'hex.{op} x, y', xy, (lambda v, f=f: {'x': f(v['x'], v['y'])}), widths=W, doc=f'dst {"|" if op == "or" else "&"}= src', domain=ex))
+        cs.append(
+            MacroContract(
+                f'table:hex.{op}',
+                f'hex.{op} x, y',
+                xy,
+                (lambda v, f=f: {'x': f(v['x'], v['y'])}),
+                widths=W,
+                doc=f'dst {"|" if op == "or" else "&"}= src',
+                domain=ex,
+            )
+        )
         doms.append((f'hex.{op}.init', 'all (dst, src) in [0,16)^2 = all 256 entries', 256))
     for op, f in (('add', lambda a, b, c: a + b + c), ('sub', lambda a, b, c: a - b - c)):
         for cin, pre in ((0, f'hex.{op}.clear_carry'), (1, f'hex.{op}.set_carry')):
@@ -859,7 +1111,13 @@ def table_contracts(tier: str, seed: int = 0) -> Tuple[List[MacroContract], List
                     domain=ex,
                 )
             )
-        doms.append((f'hex.{op}.init', 'all (carry-in, src, dst) in {0,1} x [0,16)^2 = all 512 entries; result hex and carry-out both observed', 512))
+        doms.append(
+            (
+                f'hex.{op}.init',
+                'all (carry-in, src, dst) in {0,1} x [0,16)^2 = all 512 entries; result hex and carry-out both observed',
+                512,
+            )
+        )
     cs.append(
         MacroContract(
             'table:hex.cmp',
